@@ -247,6 +247,7 @@ func (w *World) Exec(st *Step) (res StepResult) {
 		// one takes its slot
 		old := w.Client(st.C)
 		old.Closed = true
+		w.Graveyard = append(w.Graveyard, old)
 		sc, err := w.newClient(st.C, old.Proj)
 		if err != nil {
 			panic(err)
@@ -331,11 +332,15 @@ func (w *World) Exec(st *Step) (res StepResult) {
 			before = sd.Doc.Marshal()
 		}
 		cpBefore := sd.Doc.Checkpoint()
+		garbageBefore := sd.Doc.GarbageLen()
 		if w.RunFG(func() { err = sc.Cli.Sync(ctx, opt) }) {
 			return StepResult{Out: "hang"}
 		}
 		res.Err = err
 		res.Out = classify(err)
+		if err == nil && sd.Doc.GarbageLen() < garbageBefore {
+			w.probe("client_gc_purged")
+		}
 		if err == nil && sd.Doc.Checkpoint().ServerSeq > cpBefore.ServerSeq {
 			w.probe("sync_pulled")
 			if !hadLocal && sd.Doc.Marshal() != before {
